@@ -359,14 +359,14 @@ harness!(filter_contract, 2, {
         }
         SOFT => {
             assert!(r == Err(E { fatal: false, tag: c.val }));
-            if bt {
-                assert!(input.pos == p0);
-            }
+            // also under a child that does not undo its own soft failure (defect 65)
+            assert!(input.pos == p0, "soft failure under filter leaves the input where it started");
         }
         _ => assert!(r == Err(E { fatal: true, tag: c.val })),
     }
     reach!(r.is_ok());
     reach!(c.out == OK && is_soft(&r));
+    reach!(!bt && c.out == SOFT && c.end > p0);
 });
 
 //# harness filter_map_contract tier=quick label=complete props=C20 fn=rusty_pc/src/filter_map.rs::FilterMapParser::parse
@@ -409,9 +409,8 @@ harness!(peek_contract, 2, {
         OK => assert!(r == Ok(c.val) && input.pos == p0, "peek never consumes"),
         SOFT => {
             assert!(r == Err(E { fatal: false, tag: c.val }));
-            if bt {
-                assert!(input.pos == p0, "soft failure under peek leaves the input where it started");
-            }
+            // also under a child that does not undo its own soft failure (defect 65)
+            assert!(input.pos == p0, "soft failure under peek leaves the input where it started");
         }
         _ => assert!(r == Err(E { fatal: true, tag: c.val })),
     }
@@ -436,9 +435,8 @@ harness!(to_option_contract, 2, {
         OK => assert!(r == Ok(Some(c.val)) && input.pos == c.end),
         SOFT => {
             assert!(r == Ok(None));
-            if bt {
-                assert!(input.pos == p0, "soft failure under optional leaves the input where it started");
-            }
+            // also under a child that does not undo its own soft failure (defect 65)
+            assert!(input.pos == p0, "soft failure under optional leaves the input where it started");
         }
         _ => assert!(r == Err(E { fatal: true, tag: c.val })),
     }
@@ -460,9 +458,8 @@ harness!(or_default_contract, 2, {
         OK => assert!(r == Ok(c.val) && input.pos == c.end),
         SOFT => {
             assert!(r == Ok(0u8));
-            if bt {
-                assert!(input.pos == p0, "soft failure under default leaves the input where it started");
-            }
+            // also under a child that does not undo its own soft failure (defect 65)
+            assert!(input.pos == p0, "soft failure under default leaves the input where it started");
         }
         _ => assert!(r == Err(E { fatal: true, tag: c.val })),
     }
